@@ -238,7 +238,7 @@ def run(ctx):
         'legal = the documented ownership contract as encoded in C12/Ops.v (hand-read from geos_c.h); interior pointers are never used to build dependent objects (a restriction of the generator, not of the API)',
         'tiny positive tolerances (1e-300, 1e-9) are not in the boundary table: for densify / buffer-like entry points they are legitimate requests for astronomically large outputs',
         'GEOSGeom_createCollection_r / createPolygon_r are exercised with exactly two geometries; callbacks of the STRtree only read the item',
-        'per-call limit 10 s, ASan+UBSan+LSan build, allocator_may_return_null=1 (a failed allocation must surface as an exception, not as an abort)',
+        'per-call limit 10 s of CPU time (60 s wall clock), ASan+UBSan+LSan build, allocator_may_return_null=1 (a failed allocation must surface as an exception, not as an abort)',
         'the model is not proved equal to the implementation: a wrong ownership entry in the table shows up as a leak / double free under the harness']
     ok_asan = ctx.build_repo('asan')
     table_path = os.path.join(COQ, 'theories/Gen/C12_api_table.v')
@@ -257,7 +257,7 @@ def run(ctx):
     hexe = os.path.join(BUILD, 'bin', 'c12_asan')
     if not ok_asan or not drv or not ctx.cxx(os.path.join(ROOT, 'harness/c12.cpp'), hexe, 'asan', extra='-ldl -rdynamic'):
         return
-    nprog = 1200 if quick else 20000
+    nprog = 1200 if quick else 12000
     seeds = []
     corpus = os.path.join(ROOT, 'gen/corpus/C12.txt')
     fixed = []
@@ -280,7 +280,7 @@ def run(ctx):
     env = dict(os.environ, ASAN_OPTIONS='allocator_may_return_null=1:hard_rss_limit_mb=6000:detect_leaks=1:abort_on_error=0', UBSAN_OPTIONS='print_stacktrace=1')
     os.environ.update(ASAN_OPTIONS=env['ASAN_OPTIONS'], UBSAN_OPTIONS=env['UBSAN_OPTIONS'])
     t0 = time.time()
-    out = run_cases([hexe], lines, tmo=200, workers=6)
+    out = run_cases([hexe], lines, tmo=500, workers=6)
     ctx.log('implementation (asan): %d programs in %.1fs' % (len(lines), time.time() - t0))
     opcount = {}; fails = {}; softs = {}; ncalls = nerrs = 0; slowest = {}
     known = [k for k in ctx.known if k.get('status') == 'known']
